@@ -35,6 +35,19 @@ type c16SL struct {
 	Betw     [][]kvPair `json:"betw"`
 	BetwErr  []bool     `json:"betw_err"`
 	Panic    string     `json:"panic,omitempty"`
+	// second phase, after the observations above: lookups interleaved with further inserts. Before and after each
+	// insert Late[i] the map is scanned from LateQ[i] (through one reused probe buffer for byte keys)
+	Late    []kvPair  `json:"late,omitempty"`
+	LateQ   [][]byte  `json:"late_q,omitempty"`
+	LateObs []lateObs `json:"late_obs,omitempty"`
+}
+
+type lateObs struct {
+	Before []kvPair `json:"before"`
+	After  []kvPair `json:"after"`
+	Has    bool     `json:"has"`
+	HasNew bool     `json:"has_new"`
+	Size   int      `json:"size"`
 }
 
 func encInt(i int64) []byte {
@@ -156,6 +169,20 @@ func (c *c16SL) Exec() {
 		c.Betw = append(c.Betw, l)
 		c.BetwErr = append(c.BetwErr, e)
 	}
+	c.LateObs = nil
+	probe := make([]byte, 0, 64)
+	for i, kv := range c.Late {
+		var o lateObs
+		probe = append(probe[:0], c.LateQ[i]...)
+		o.Before = ops.from(probe)
+		ops.insert(kv.K, kv.V)
+		o.After = ops.from(probe)
+		o.Has = ops.has(probe)
+		probe = append(probe[:0], kv.K...) // the same buffer now holds another key
+		o.HasNew = ops.has(probe)
+		o.Size = ops.size()
+		c.LateObs = append(c.LateObs, o)
+	}
 }
 
 func sortedRef(ins []kvPair) []kvPair {
@@ -227,6 +254,37 @@ func (c *c16SL) Oracle() (bool, string) {
 		}
 		if !kvEq(c.Betw[i], want) {
 			return false, fmt.Sprintf("between %x %x wrong", b[0], b[1])
+		}
+	}
+	cur := append([]kvPair(nil), c.Ins...)
+	fromRef := func(q []byte) ([]kvPair, bool) {
+		var out []kvPair
+		has := false
+		for _, kv := range sortedRef(cur) {
+			if bytes.Compare(kv.K, q) >= 0 {
+				out = append(out, kv)
+			}
+			if bytes.Equal(kv.K, q) {
+				has = true
+			}
+		}
+		return out, has
+	}
+	for i, kv := range c.Late {
+		if i >= len(c.LateObs) {
+			return false, "interleaved phase stopped early"
+		}
+		o := c.LateObs[i]
+		if want, _ := fromRef(c.LateQ[i]); !kvEq(o.Before, want) {
+			return false, fmt.Sprintf("interleaved phase step %d: iterator starting at %x before the insert wrong", i, c.LateQ[i])
+		}
+		cur = append(cur, kv)
+		want, has := fromRef(c.LateQ[i])
+		if !kvEq(o.After, want) {
+			return false, fmt.Sprintf("interleaved phase step %d: iterator starting at %x after inserting %x wrong (%d entries, want %d)", i, c.LateQ[i], kv.K, len(o.After), len(want))
+		}
+		if o.Has != has || !o.HasNew || o.Size != len(cur) {
+			return false, fmt.Sprintf("interleaved phase step %d: Contains/Size after inserting %x wrong", i, kv.K)
 		}
 	}
 	return true, ""
@@ -574,6 +632,44 @@ func slCaseFrom(r *rand.Rand, cmp string, keys [][]byte) *c16SL {
 			a, b = b, a
 		}
 		c.Bounds = append(c.Bounds, [2][]byte{a, b})
+	}
+	// interleaved phase: new keys, each probed from just below it (an absent key whose successor the new key becomes),
+	// from a random key or from itself
+	for i := 0; i < 1+r.Intn(6); i++ {
+		k := randKey(r, cmp)
+		if seen["late"+string(k)] {
+			continue
+		}
+		dup := false
+		for _, x := range keys {
+			if bytes.Equal(x, k) {
+				dup = true
+			}
+		}
+		if dup {
+			continue
+		}
+		seen["late"+string(k)] = true
+		var q []byte
+		switch r.Intn(4) {
+		case 0:
+			q = randKey(r, cmp)
+		case 1:
+			q = append([]byte(nil), k...)
+		default:
+			if isInt {
+				q = encInt(decInt(k) - 1 - int64(r.Intn(3)))
+			} else if len(k) > 0 {
+				q = append([]byte(nil), k[:len(k)-1]...)
+				if last := k[len(k)-1]; last > 0 && r.Intn(2) == 0 {
+					q = append(q, last-1)
+				}
+			} else {
+				q = []byte{}
+			}
+		}
+		c.Late = append(c.Late, kvPair{K: k, V: []byte{0xee, byte(i)}})
+		c.LateQ = append(c.LateQ, q)
 	}
 	return c
 }
